@@ -221,17 +221,55 @@ Arguments eval_le {Q}. Arguments eval_cond_le {Q}. Arguments select_expr_le {Q}.
 
 Definition busyb (k : string) (busy : list string) : bool := existsb (String.eqb k) busy.
 
+(* enclosing queries the interpreter cannot tell apart *)
+Record frame_equiv (f g : frame) : Prop := {
+  fe_data : fr_data f = fr_data g;
+  fe_ctes : forall k, cte_lookup k (fr_ctes f) = cte_lookup k (fr_ctes g);
+  fe_busy : forall k, busyb k (fr_busy f) = busyb k (fr_busy g)
+}.
+
+(* a stack of enclosing queries none of which registered a CTE holds no thunk *)
+Definition blank_up (up : list frame) : Prop := Forall (fun f => fr_ctes f = []) up.
+
+(* stacks of enclosing queries: frame by frame, up to tails that hold no thunk at all (such tails
+   may differ arbitrarily, also in length: nothing but thunks is looked up in [c_up]) *)
+Inductive up_equiv : list frame -> list frame -> Prop :=
+| ue_blank ua ub : blank_up ua -> blank_up ub -> up_equiv ua ub
+| ue_cons f g ua ub : frame_equiv f g -> up_equiv ua ub -> up_equiv (f :: ua) (g :: ub).
+
 Record ctx_equiv (a b : qctx) : Prop := {
   ce_data : c_data a = c_data b;
   ce_ctes : forall k, cte_lookup k (c_ctes a) = cte_lookup k (c_ctes b);
-  ce_busy : forall k, busyb k (c_busy a) = busyb k (c_busy b)
+  ce_busy : forall k, busyb k (c_busy a) = busyb k (c_busy b);
+  ce_up : up_equiv (c_up a) (c_up b)
 }.
 
-Lemma ctx_equiv_refl a : ctx_equiv a a.
+Lemma frame_equiv_refl f : frame_equiv f f.
 Proof. split; reflexivity. Qed.
 
-Lemma ctx_equiv_sym a b : ctx_equiv a b -> ctx_equiv b a.
+Lemma frame_equiv_sym f g : frame_equiv f g -> frame_equiv g f.
 Proof. intros [H1 H2 H3]. split; intros; symmetry; auto. Qed.
+
+Lemma up_equiv_refl up : up_equiv up up.
+Proof.
+  induction up; [apply ue_blank; constructor|apply ue_cons; auto using frame_equiv_refl].
+Qed.
+
+Lemma up_equiv_sym ua ub : up_equiv ua ub -> up_equiv ub ua.
+Proof. induction 1; [apply ue_blank; assumption|apply ue_cons; auto using frame_equiv_sym]. Qed.
+
+Lemma up_find_blank up : blank_up up -> forall p, up_find up p = None.
+Proof.
+  induction 1 as [|f up Hf _ IH]; intros p; cbn [up_find]; [reflexivity|].
+  destruct p as [|k rest]; [reflexivity|]. rewrite Hf. cbn [cte_lookup find].
+  destruct (String.eqb k "<-"); [apply IH|reflexivity].
+Qed.
+
+Lemma ctx_equiv_refl a : ctx_equiv a a.
+Proof. split; try reflexivity. apply up_equiv_refl. Qed.
+
+Lemma ctx_equiv_sym a b : ctx_equiv a b -> ctx_equiv b a.
+Proof. intros [H1 H2 H3 H4]. split; intros; try symmetry; auto. apply up_equiv_sym. exact H4. Qed.
 
 Lemma cte_lookup_app k l1 l2 :
   cte_lookup k (l1 ++ l2) =
@@ -244,17 +282,61 @@ Qed.
 Lemma ctx_equiv_register a b w :
   ctx_equiv a b -> ctx_equiv (register_ctes a w) (register_ctes b w).
 Proof.
-  intros [H1 H2 H3]. split; cbn [register_ctes c_data c_ctes c_busy]; auto.
+  intros [H1 H2 H3 H4]. split; cbn [register_ctes c_data c_ctes c_busy c_up]; auto.
   intros k. rewrite !cte_lookup_app, H2. reflexivity.
 Qed.
 
 Lemma ctx_equiv_busy a b k :
   ctx_equiv a b ->
-  ctx_equiv {| c_data := c_data a; c_ctes := c_ctes a; c_busy := k :: c_busy a |}
-            {| c_data := c_data b; c_ctes := c_ctes b; c_busy := k :: c_busy b |}.
+  ctx_equiv {| c_data := c_data a; c_ctes := c_ctes a; c_busy := k :: c_busy a; c_up := c_up a |}
+            {| c_data := c_data b; c_ctes := c_ctes b; c_busy := k :: c_busy b; c_up := c_up b |}.
 Proof.
-  intros [H1 H2 H3]. split; cbn [c_data c_ctes c_busy]; auto.
+  intros [H1 H2 H3 H4]. split; cbn [c_data c_ctes c_busy c_up]; auto.
   intros k'. unfold busyb in *. cbn [existsb]. rewrite H3. reflexivity.
+Qed.
+
+(* a row-scoped subquery of indistinguishable queries *)
+Lemma ctx_equiv_sub a b cur : ctx_equiv a b -> ctx_equiv (sub_ctx a cur) (sub_ctx b cur).
+Proof.
+  intros [H1 H2 H3 H4]. split; cbn [sub_ctx c_data c_ctes c_busy c_up]; try reflexivity.
+  apply ue_cons; [|exact H4]. split; cbn [fr_data fr_ctes fr_busy fst snd]; auto.
+Qed.
+
+(* the thunk an enclosing query holds for a path, and the context it is evaluated in *)
+Definition hit_ctx (h : up_hit) : qctx :=
+  {| c_data := fr_data (uh_frame h); c_ctes := fr_ctes (uh_frame h);
+     c_busy := uh_name h :: fr_busy (uh_frame h); c_up := uh_up h |}.
+
+Definition hit_equiv (o1 o2 : option up_hit) : Prop :=
+  match o1, o2 with
+  | Some h1, Some h2 =>
+      uh_name h1 = uh_name h2 /\ uh_body h1 = uh_body h2 /\ uh_rest h1 = uh_rest h2 /\
+      busyb (uh_name h1) (fr_busy (uh_frame h1)) = busyb (uh_name h2) (fr_busy (uh_frame h2)) /\
+      ctx_equiv (hit_ctx h1) (hit_ctx h2)
+  | None, None => True
+  | _, _ => False
+  end.
+
+Lemma up_find_equiv ua ub : up_equiv ua ub ->
+  forall p, hit_equiv (up_find ua p) (up_find ub p).
+Proof.
+  induction 1 as [ua ub Ha Hb|f g ua ub Hfg Hup IH]; intros p.
+  { rewrite (up_find_blank ua Ha), (up_find_blank ub Hb). exact I. }
+  cbn [up_find]. destruct p as [|k rest]; [exact I|].
+  rewrite (fe_ctes _ _ Hfg k). destruct (cte_lookup k (fr_ctes g)) as [body|].
+  - cbn [hit_equiv uh_name uh_body uh_rest uh_frame uh_up]. repeat split; auto.
+    + apply (fe_busy _ _ Hfg).
+    + apply (fe_data _ _ Hfg).
+    + apply (fe_ctes _ _ Hfg).
+    + intros k'. cbn [hit_ctx c_busy uh_name uh_frame]. unfold busyb. cbn [existsb].
+      pose proof (fe_busy _ _ Hfg k') as Hb. unfold busyb in Hb. rewrite Hb. reflexivity.
+  - destruct (String.eqb k "<-"); [apply IH|exact I].
+Qed.
+
+Lemma up_read_equiv a b p : ctx_equiv a b -> hit_equiv (up_read a p) (up_read b p).
+Proof.
+  intros Hab. unfold up_read. destruct p as [|k rest]; [exact I|].
+  destruct (String.eqb k "<-"); [|exact I]. apply up_find_equiv. apply (ce_up _ _ Hab).
 Qed.
 
 (* ================================================================== *)
@@ -282,8 +364,18 @@ Section StepLe.
         destruct (existsb (String.eqb k) (c_busy b)); [apply le_res_refl|].
         apply le_res_bind; [|intros; apply le_res_refl].
         apply Hrec. apply ctx_equiv_busy. exact Hab.
-      + rewrite (ce_data _ _ Hab). apply le_res_refl.
-    - rewrite (ce_data _ _ Hab). apply le_res_refl.
+      + pose proof (up_read_equiv a b (k :: rest) Hab) as Hh.
+        destruct (up_read a (k :: rest)) as [h1|], (up_read b (k :: rest)) as [h2|];
+          cbn [hit_equiv] in Hh; try contradiction.
+        * destruct Hh as (Hn & Hbody & Hrest & Hb & Hctx). unfold busyb in Hb. rewrite Hb.
+          destruct (existsb (String.eqb (uh_name h2)) (fr_busy (uh_frame h2))); [apply le_res_refl|].
+          rewrite Hbody, Hrest. apply le_res_bind; [|intros; apply le_res_refl].
+          apply (Hrec (hit_ctx h1) (hit_ctx h2) Hctx).
+        * rewrite (ce_data _ _ Hab). apply le_res_refl.
+    - pose proof (up_read_equiv a b path Hab) as Hh.
+      destruct (up_read a path) as [h1|], (up_read b path) as [h2|];
+        cbn [hit_equiv] in Hh; try contradiction; [apply le_res_refl|].
+      rewrite (ce_data _ _ Hab). apply le_res_refl.
     - apply le_res_bind; [apply Hrec; exact Hab|]. intros; apply le_res_refl.
     - apply le_res_bind; [apply IHl; exact Hab|]. intros lf.
       apply le_res_bind; [apply IHr; exact Hab|]. intros rf.
@@ -291,17 +383,18 @@ Section StepLe.
   Qed.
 
   Lemma mk_env_le a b s filtered :
-    c_data a = c_data b ->
+    ctx_equiv a b ->
     env_le (mk_env rec1 call join a s filtered) (mk_env rec2 call join b s filtered).
   Proof.
-    intros Hd. split; cbn [mk_env e_data e_sub e_exists e_agg e_call e_hard]; auto.
+    intros Hab. pose proof (ce_data _ _ Hab) as Hd.
+    split; cbn [mk_env e_data e_sub e_exists e_agg e_call e_hard]; auto.
     - rewrite Hd. reflexivity.
-    - intros q cur. apply Hrec. apply ctx_equiv_refl.
+    - intros q cur. apply Hrec. apply ctx_equiv_sub. exact Hab.
     - intros q cur. destruct q as [s'|]; [|apply le_res_refl].
-      apply le_res_bind; [apply build_from_le; apply ctx_equiv_refl|]. intros src.
+      apply le_res_bind; [apply build_from_le; apply ctx_equiv_sub; exact Hab|]. intros src.
       destruct src as [rows|]; [|apply le_res_refl].
       apply le_res_bind; [apply le_res_refl|]. intros merged.
-      apply le_res_bind; [apply Hrec; apply ctx_equiv_refl|]. intros; apply le_res_refl.
+      apply le_res_bind; [apply Hrec; apply ctx_equiv_sub; exact Hab|]. intros; apply le_res_refl.
     - intros; apply le_res_refl.
   Qed.
 
@@ -339,19 +432,21 @@ Section StepLe.
     apply le_res_bind; [exact IH|]. intros; apply le_res_refl.
   Qed.
 
-  (* run_select sees its context through the document and through the nested-dimension calls *)
+  (* run_select sees its context through the document, through the nested-dimension calls and
+     through what its row-scoped subqueries find behind `<-` *)
   Lemma run_select_le a b s src :
-    c_data a = c_data b ->
+    ctx_equiv a b ->
     (forall s' rows, le_res (rec1 a (JRows s' rows)) (rec2 b (JRows s' rows))) ->
     le_res (run_select rec1 call join a s src) (run_select rec2 call join b s src).
   Proof.
-    intros Hd Hrows. unfold run_select. apply le_res_catch. destruct src as [from|].
-    - apply le_res_bind; [apply filter_rows_le; [apply mk_env_le; exact Hd | exact Hrows]|].
+    intros Hab Hrows. pose proof (ce_data _ _ Hab) as Hd. pose proof Hab as Hd'.
+    unfold run_select. apply le_res_catch. destruct src as [from|].
+    - apply le_res_bind; [apply filter_rows_le; [apply mk_env_le; exact Hab | exact Hrows]|].
       intros filtered.
-      apply le_res_bind; [apply exec_group_by_le; apply mk_env_le; exact Hd|]. intros grouped.
-      apply le_res_bind; [apply exec_select_le; apply mk_env_le; exact Hd|]. intros selected.
+      apply le_res_bind; [apply exec_group_by_le; apply mk_env_le; exact Hab|]. intros grouped.
+      apply le_res_bind; [apply exec_select_le; apply mk_env_le; exact Hab|]. intros selected.
       apply le_res_refl.
-    - rewrite Hd. apply le_res_bind; [apply exec_select_le; apply mk_env_le; exact Hd|].
+    - rewrite Hd. apply le_res_bind; [apply exec_select_le; apply mk_env_le; exact Hab|].
       intros; apply le_res_refl.
   Qed.
 
@@ -361,13 +456,13 @@ Section StepLe.
     intros Hab. destruct j as [[s|all l r limit offset]|s rows]; cbn [exec_step].
     - pose proof (ctx_equiv_register a b (s_with s) Hab) as Hreg.
       apply le_res_bind; [apply build_from_le; exact Hreg|]. intros src.
-      apply run_select_le; [apply (ce_data _ _ Hreg)|]. intros; apply Hrec; exact Hreg.
+      apply run_select_le; [exact Hreg|]. intros; apply Hrec; exact Hreg.
     - apply le_res_bind; [apply Hrec; exact Hab|]. intros lv.
       apply le_res_bind; [apply Hrec; exact Hab|]. intros rv.
       apply le_res_bind; [apply le_res_refl|]. intros la.
       apply le_res_bind; [apply le_res_refl|]. intros ra.
-      apply run_select_le; [apply (ce_data _ _ Hab)|]. intros; apply Hrec; exact Hab.
-    - apply run_select_le; [apply (ce_data _ _ Hab)|]. intros; apply Hrec; exact Hab.
+      apply run_select_le; [exact Hab|]. intros; apply Hrec; exact Hab.
+    - apply run_select_le; [exact Hab|]. intros; apply Hrec; exact Hab.
   Qed.
 End StepLe.
 
@@ -421,23 +516,22 @@ Section Fuel.
     intros Hab. apply le_res_antisym; apply exec_le; auto using ctx_equiv_sym.
   Qed.
 
-  (* a prepared SELECT over resolved rows looks at the context only through the document *)
-  Theorem exec_rows_ctx n : forall a b s rows,
-    c_data a = c_data b -> ex n a (JRows s rows) = ex n b (JRows s rows).
-  Proof.
-    induction n as [|n IH]; intros a b s rows Hd; [reflexivity|]. cbn [exec exec_step].
-    apply le_res_antisym; apply run_select_le; auto;
-      try (intros a' b' Hab' j'; apply exec_le; [lia|exact Hab']);
-      intros s' rows'; apply le_res_eq; apply IH; auto.
-  Qed.
+  (* a prepared SELECT over resolved rows gives the same outcome in indistinguishable contexts.
+     (Before the enclosing queries' thunks became visible through `<-` the hypothesis was only
+     [c_data a = c_data b]: now the row-scoped subqueries of the SELECT see the thunks and the
+     in-progress marks of the context.  For SELECTs without subqueries the document still is all
+     that matters: Proofs/C07Blind.v, run_select_blind.) *)
+  Theorem exec_rows_ctx n a b s rows :
+    ctx_equiv a b -> ex n a (JRows s rows) = ex n b (JRows s rows).
+  Proof. apply exec_ctx_equiv. Qed.
 
   Lemma run_select_ctx n a b s src :
-    c_data a = c_data b ->
+    ctx_equiv a b ->
     run_select (ex n) call join a s src = run_select (ex n) call join b s src.
   Proof.
-    intros Hd. apply le_res_antisym; apply run_select_le; auto;
+    intros Hab. apply le_res_antisym; apply run_select_le; auto using ctx_equiv_sym;
       try (intros a' b' Hab' j'; apply exec_le; [lia|exact Hab']);
-      intros s' rows'; apply le_res_eq; apply exec_rows_ctx; auto.
+      intros s' rows'; apply le_res_eq; apply exec_ctx_equiv; auto using ctx_equiv_sym.
   Qed.
 
   (* the API entry point inherits monotonicity *)
